@@ -603,6 +603,11 @@ impl ExecutionClient for StubClient {
     }
     async fn open_order(&self, request: OrderRequestOpen<ExchangeId, &InstrumentNameExchange>) -> Order<ExchangeId, InstrumentNameExchange, Result<Open, UnindexedOrderError>> {
         self.log.lock().unwrap().push(("open".into(), request.key.exchange, request.key.instrument.clone()));
+        // (pair route: the venue takes a moment, so that both requests of a pair are in flight together)
+        let delay = STUB_DELAY_MS.load(Ordering::SeqCst);
+        if delay > 0 {
+            tokio::time::sleep(Duration::from_millis(delay)).await;
+        }
         Order {
             key: OrderKey { exchange: request.key.exchange, instrument: request.key.instrument.clone(), strategy: request.key.strategy, cid: request.key.cid },
             side: request.state.side, price: request.state.price, quantity: request.state.quantity,
@@ -630,6 +635,42 @@ struct Outcome {
 }
 
 pub static QUIET: AtomicBool = AtomicBool::new(false);
+static STUB_DELAY_MS: std::sync::atomic::AtomicU64 = std::sync::atomic::AtomicU64::new(0);
+
+/// Two open requests that carry the SAME client order id for two different instruments of the exchange (a client
+/// order id is unique per instrument only - e.g. the two legs of a pair correlated by one id), both in flight at
+/// once behind a real `ExecutionManager::run`: the keys (exchange index, instrument index) of the two indexed
+/// responses, in arrival order. Every answer is indexed to the instrument IT names.
+fn drive_manager_pair(rt: &tokio::runtime::Runtime, map: &ExecutionInstrumentMap, a: ExecutionRequest, b: ExecutionRequest) -> (Vec<(usize, usize)>, Option<String>) {
+    let map = map.clone();
+    rt.block_on(async move {
+        let (req_tx, req_rx) = mpsc_unbounded::<ExecutionRequest>();
+        let (resp_tx, mut resp_rx) = mpsc_unbounded::<AccountStreamEvent>();
+        let log: Received = Arc::new(Mutex::new(vec![]));
+        let manager = ExecutionManager::new(req_rx.into_stream(), Duration::from_secs(1), resp_tx, Arc::new(StubClient::new(log.clone())), AccountEventIndexer::new(Arc::new(map)));
+        QUIET.store(true, Ordering::SeqCst);
+        STUB_DELAY_MS.store(20, Ordering::SeqCst);
+        let handle = tokio::spawn(manager.run());
+        let _ = req_tx.tx.send(a);
+        let _ = req_tx.tx.send(b);
+        let mut keys = vec![];
+        for _ in 0..2 {
+            if let Ok(Some(ReconnectEvent::Item(AccountEvent { kind: AccountEventKind::OrderSnapshot(Snapshot(o)), .. }))) = tokio::time::timeout(Duration::from_secs(5), resp_rx.rx.recv()).await {
+                keys.push((o.key.exchange.index(), o.key.instrument.index()));
+            }
+        }
+        let _ = req_tx.tx.send(ExecutionRequest::Shutdown);
+        drop(req_tx);
+        let panic = match handle.await {
+            Ok(()) => None,
+            Err(e) if e.is_panic() => Some("panic".to_string()),
+            Err(e) => Some(format!("join error: {e}")),
+        };
+        STUB_DELAY_MS.store(0, Ordering::SeqCst);
+        QUIET.store(false, Ordering::SeqCst);
+        (keys, panic)
+    })
+}
 
 fn drive_manager(rt: &tokio::runtime::Runtime, map: &ExecutionInstrumentMap, request: ExecutionRequest) -> Outcome {
     let map = map.clone();
@@ -974,6 +1015,20 @@ pub fn check_c04(scn: &Value, rt: &tokio::runtime::Runtime) -> Report {
                 };
                 rep.same(&format!("ExecutionManager[{ex}] <- {kind} request (ExchangeIndex({own_x}), InstrumentIndex({k}))"), &format!("manager:{c}"), &want, &got);
             }
+        }
+
+        // ---- Outbound, pairs: two opens sharing one client order id, for two own instruments whose exchange names are
+        //      not shared, in flight together: each answer is indexed to the instrument it names
+        let plain: Vec<usize> = arr(m, "ii").iter().enumerate().filter(|(_, exp)| !is_zero(exp) && !is_open(exp)).map(|(p, _)| p).collect();
+        if plain.len() >= 2 {
+            let (ka, kb) = (i_actual(plain[0]), i_actual(plain[plain.len() - 1]));
+            let (keys, panic) = drive_manager_pair(rt, &map, ExecutionRequest::Open(req_open(own_x, ka, "c1")), ExecutionRequest::Open(req_open(own_x, kb, "c1")));
+            let mut got: Vec<Value> = keys.iter().map(|(x, n)| json!([x, n])).collect();
+            got.sort_by_key(|v| v.to_string());
+            let mut want: Vec<Value> = vec![json!([own_x, ka]), json!([own_x, kb])];
+            want.sort_by_key(|v| v.to_string());
+            rep.same(&format!("ExecutionManager[{ex}] <- two open requests sharing a client order id (InstrumentIndex({ka}), InstrumentIndex({kb})), both in flight"),
+                     &format!("manager_pair:{c}"), &json!({"responses": want, "refused": false}), &json!({"responses": got, "refused": panic.is_some()}));
         }
 
         // ---- Inbound: synthesised unindexed events from every exchange, every name ------------
